@@ -73,8 +73,11 @@ def setup():
     _ENV.update(qp=qp, np=np, sp=sp, Dataset=Dataset, qgen=qgen, simfs=simfs, ready=True)
     from simkit.core import Streams, derive_seed
 
-    for i in range(40):
-        run_case(dict(gen_case(Streams(derive_seed("warm", i)), "quick"), fault=None))
+    try:
+        for i in range(40):
+            run_case(dict(gen_case(Streams(derive_seed("warm", i)), "quick"), fault=None))
+    except Exception:  # noqa: BLE001 - warm-up only
+        pass
     import gc
 
     gc.collect()
